@@ -28,6 +28,11 @@ Inductive fev :=
 | FPop            (* BeforeStackPop immediately followed by AfterStackPop *)
 | FPopFail.       (* BeforeStackPop with no AfterStackPop: the stack was empty *)
 
+(** besides the lifecycle state: nothing special / a failed pop has just been seen (then only AfterExecute may
+    follow) / the alt stack is being dropped at the end of a script (after AfterExecuteOpcode: then only further pops
+    and the script change may follow — the checks that can still fail the step come BEFORE the stacks are touched) *)
+Inductive fmode := MNormal | MFailed | MCleaning.
+
 Definition stack_ok (p2sh : bool) (q : lstate) : bool :=
   match q with
   | QBO | QAO | QAEok => true
@@ -35,30 +40,41 @@ Definition stack_ok (p2sh : bool) (q : lstate) : bool :=
   | _ => false
   end.
 
-(** state: the lifecycle state, and whether a failed pop has just been seen (then only AfterExecute may follow) *)
-Definition fstep (p2sh : bool) (st : lstate * bool) (e : fev) : option (lstate * bool) :=
-  let '(q, failed) := st in
-  if failed then
-    match e, q with
-    | FL AE, QBO => match lstep q AE with Some q' => Some (q', false) | None => None end
-    | _, _ => None
-    end
-  else
-    match e with
-    | FL e => match lstep q e with Some q' => Some (q', false) | None => None end
-    | FPush | FPop => if stack_ok p2sh q then Some (q, false) else None
-    | FPopFail => match q with QBO => Some (q, true) | _ => None end
-    end.
+Definition lift (m : fmode) (o : option lstate) : option (lstate * fmode) :=
+  match o with Some q' => Some (q', m) | None => None end.
 
-Fixpoint frun (p2sh : bool) (st : lstate * bool) (tr : list fev) : option (lstate * bool) :=
+Definition fstep (p2sh : bool) (st : lstate * fmode) (e : fev) : option (lstate * fmode) :=
+  let '(q, m) := st in
+  match m with
+  | MFailed =>
+      match e, q with
+      | FL AE, QBO => lift MNormal (lstep q AE)
+      | _, _ => None
+      end
+  | MCleaning =>
+      match e with
+      | FPop => Some (q, MCleaning)
+      | FL BC => lift MNormal (lstep q BC)
+      | _ => None
+      end
+  | MNormal =>
+      match e with
+      | FL e => lift MNormal (lstep q e)
+      | FPush => match q with QAO => None | _ => if stack_ok p2sh q then Some (q, MNormal) else None end
+      | FPop => match q with QAO => Some (q, MCleaning) | _ => if stack_ok p2sh q then Some (q, MNormal) else None end
+      | FPopFail => match q with QBO => Some (q, MFailed) | _ => None end
+      end
+  end.
+
+Fixpoint frun (p2sh : bool) (st : lstate * fmode) (tr : list fev) : option (lstate * fmode) :=
   match tr with
   | [] => Some st
   | e :: r => match fstep p2sh st e with Some st' => frun p2sh st' r | None => None end
   end.
 
 Definition full_lifecycle_ok (p2sh : bool) (tr : list fev) : bool :=
-  match frun p2sh (QStart, false) tr with
-  | Some (QOk, false) | Some (QErr, false) => true
+  match frun p2sh (QStart, MNormal) tr with
+  | Some (QOk, MNormal) | Some (QErr, MNormal) => true
   | _ => false
   end.
 
@@ -70,36 +86,49 @@ Fixpoint project (tr : list fev) : list ev :=
   | _ :: r => project r
   end.
 
+Lemma fstep_project p2sh q m e q1 m1 :
+  fstep p2sh (q, m) e = Some (q1, m1) ->
+  match e with FL x => lstep q x = Some q1 | _ => q1 = q end.
+Proof.
+  unfold fstep, lift. destruct m.
+  - destruct e as [x| | |].
+    + destruct (lstep q x); intros [= <- _]; reflexivity.
+    + destruct q; try (destruct (stack_ok p2sh _)); intros [= <- _] || discriminate; reflexivity.
+    + destruct q; try (destruct (stack_ok p2sh _)); intros [= <- _] || discriminate; reflexivity.
+    + destruct q; intros [= <- _] || discriminate; reflexivity.
+  - destruct e as [x| | |]; try discriminate. destruct x; try discriminate. destruct q; try discriminate.
+    destruct (lstep QBO AE); intros [= <- _]; reflexivity.
+  - destruct e as [x| | |]; try discriminate.
+    + destruct x; try discriminate. destruct (lstep q BC); intros [= <- _]; reflexivity.
+    + intros [= <- _]. reflexivity.
+Qed.
+
 Lemma frun_project p2sh : forall tr q f q' f',
   frun p2sh (q, f) tr = Some (q', f') -> lrun q (project tr) = Some q'.
 Proof.
   induction tr as [|e r IH]; intros q f q' f' H; cbn [frun project] in *.
   - inversion H; subst. reflexivity.
   - destruct (fstep p2sh (q, f) e) as [[q1 f1]|] eqn:Es; [|discriminate].
-    unfold fstep in Es. destruct f.
-    + destruct e as [e| | |]; try discriminate. destruct e; try discriminate. destruct q; try discriminate.
-      destruct (lstep QBO AE) as [q2|] eqn:El; [|discriminate]. inversion Es; subst.
-      cbn [project lrun]. rewrite El. eapply IH; eauto.
-    + destruct e as [e| | |].
-      * destruct (lstep q e) as [q2|] eqn:El; [|discriminate]. inversion Es; subst.
-        cbn [project lrun]. rewrite El. eapply IH; eauto.
-      * destruct (stack_ok p2sh q); [|discriminate]. inversion Es; subst. eapply IH; eauto.
-      * destruct (stack_ok p2sh q); [|discriminate]. inversion Es; subst. eapply IH; eauto.
-      * destruct q; try discriminate. inversion Es; subst. eapply IH; eauto.
+    pose proof (fstep_project _ _ _ _ _ _ Es) as Hp.
+    destruct e as [x| | |].
+    + cbn [project lrun]. rewrite Hp. eapply IH; eauto.
+    + subst q1. eapply IH; eauto.
+    + subst q1. eapply IH; eauto.
+    + subst q1. eapply IH; eauto.
 Qed.
 
 (** a full trace accepted here has its lifecycle part accepted by the lifecycle automaton *)
 Theorem full_ok_project p2sh tr : full_lifecycle_ok p2sh tr = true -> lifecycle_ok (project tr) = true.
 Proof.
   unfold full_lifecycle_ok, lifecycle_ok. intros H.
-  destruct (frun p2sh (QStart, false) tr) as [[q f]|] eqn:E; [|discriminate].
-  rewrite (frun_project p2sh tr QStart false q f E).
+  destruct (frun p2sh (QStart, MNormal) tr) as [[q f]|] eqn:E; [|discriminate].
+  rewrite (frun_project p2sh tr QStart MNormal q f E).
   destruct q; destruct f; try discriminate; reflexivity.
 Qed.
 
 (** outside a pay-to-script-hash run nothing may touch the stacks between a script change and the next step *)
 Lemma no_stack_callback_after_script_change tr1 e tr2 q :
-  frun false (QStart, false) tr1 = Some (q, false) -> (q = QACe \/ q = QACr \/ q = QBCe \/ q = QBCr \/ q = QLoop \/ q = QBS \/ q = QBE) ->
+  frun false (QStart, MNormal) tr1 = Some (q, MNormal) -> (q = QACe \/ q = QACr \/ q = QBCe \/ q = QBCr \/ q = QLoop \/ q = QBS \/ q = QBE) ->
   (e = FPush \/ e = FPop \/ e = FPopFail) -> full_lifecycle_ok false (tr1 ++ e :: tr2) = false.
 Proof.
   intros H1 Hq He. unfold full_lifecycle_ok.
@@ -108,7 +137,21 @@ Proof.
   { induction tr as [|x r IH]; intros st; cbn [frun app]; [reflexivity|].
     destruct (fstep false st x); [apply IH|reflexivity]. }
   rewrite Hf, H1. cbn [frun].
-  assert (Hs : fstep false (q, false) e = None).
-  { unfold fstep. destruct Hq as [->|[->|[->|[->|[->|[->| ->]]]]]]; destruct He as [->|[->| ->]]; reflexivity. }
+  assert (Hs : fstep false (q, MNormal) e = None).
+  { unfold fstep, lift. destruct Hq as [->|[->|[->|[->|[->|[->| ->]]]]]]; destruct He as [->|[->| ->]]; reflexivity. }
   rewrite Hs. reflexivity.
+Qed.
+
+(** once the alt stack is being dropped at the end of a script, the step can no longer fail: a trace in which an
+    error (AfterExecute) follows such a pop is refused *)
+Lemma no_failure_after_end_of_script_cleanup p2sh tr1 tr2 :
+  frun p2sh (QStart, MNormal) tr1 = Some (QAO, MNormal) ->
+  full_lifecycle_ok p2sh (tr1 ++ FPop :: FL AE :: tr2) = false.
+Proof.
+  intros H1. unfold full_lifecycle_ok.
+  assert (Hf : forall tr st rest, frun p2sh st (tr ++ rest) =
+            match frun p2sh st tr with Some st' => frun p2sh st' rest | None => None end).
+  { induction tr as [|x r IH]; intros st rest; cbn [frun app]; [reflexivity|].
+    destruct (fstep p2sh st x); [apply IH|reflexivity]. }
+  rewrite Hf, H1. reflexivity.
 Qed.
